@@ -334,7 +334,7 @@ func checkC17(c *Ctx, e *Env) {
 	importObligations(c, e, checkC15, "C15", "C17.IRI", "by-IRI queries#parser-agrees-with-encoder", "the queries keyed by an IRI resolve it with ParseIRI; they find the record of every anchored hash only if the parser accepts exactly what the encoders write", func(o *Oblig) bool { return o.Rule == "C15.CODEC" })
 	ruleTimestampConverters(c, e.Model("x/ecocredit"))
 	if ruleLossyDurations(c, e.Model("x/ecocredit"))+ruleLossyDurations(c, e.Model("x/data")) == 0 {
-		c.Hold("C17.CONV", "queries#no-lossy-duration", "-", "no AsDuration conversion in the closure of the query handlers: stored durations reach responses field by field", nil)
+		c.Hold("C17.CONV", "queries#no-lossy-duration", "-", "no conversion through time.Duration (AsDuration, durationpb.New, DurationProto, DurationFromProto) in the closure of the query handlers: stored durations reach responses field by field", nil)
 	}
 	c.Min("query methods explored", 45, nQ)
 	c.Min("list scans matched", 30, nList)
@@ -533,7 +533,7 @@ func rulePageAdapter(c *Ctx, e *Env) {
 func ruleTimestampConverters(c *Ctx, m *Model) {
 	p := m.P
 	n := 0
-	for _, name := range []string{"ProtobufToGogoTimestamp", "GogoToProtobufTimestamp"} {
+	for _, name := range []string{"ProtobufToGogoTimestamp", "GogoToProtobufTimestamp", "GogoToProtobufDuration"} {
 		fn := findFn(m, "types/v2", name)
 		if fn == nil || len(fn.Params) != 1 {
 			c.Undecide("C17.CONV", name, "-", "converter not found")
@@ -630,9 +630,11 @@ func ruleLossyDurations(c *Ctx, m *Model) int {
 		}
 		for _, ci := range callsIn(fn) {
 			pkg, name := calleePkgName(ci.Common())
-			if strings.HasSuffix(pkg, "durationpb") && name == "Duration.AsDuration" {
+			lossy := (strings.HasSuffix(pkg, "durationpb") && (name == "Duration.AsDuration" || name == "New")) ||
+				((strings.HasSuffix(pkg, "gogo/protobuf/types") || strings.HasSuffix(pkg, "gogoproto/types")) && (name == "DurationProto" || name == "DurationFromProto"))
+			if lossy {
 				n++
-				c.Violate("C17.CONV", funcKey(fn)+"#AsDuration", p.Pos(ci.Pos()), "a stored protobuf Duration is converted through time.Duration on the way to a query response: AsDuration saturates at about 292 years, while the stored message may hold up to 10000 — the response would not show what the state holds", nil)
+				c.Violate("C17.CONV", funcKey(fn)+"#"+name, p.Pos(ci.Pos()), "a stored protobuf Duration is converted through Go's time.Duration ("+name+") on the way to a query response: time.Duration ends at about 292 years, while the stored message may hold up to 10000 — the response would not show what the state holds", nil)
 			}
 		}
 	}
